@@ -679,8 +679,9 @@ def tagsOf (o : Opts) (sets : List SetD) (script : String) (wins : List Win) (du
   let triv := if retAt == "init" && !canc then " trivial" else ""
   s!"k={o.kind} dupaddr={dup} mode={mode} n={min n 6} sets={sets.length} min={o.min} hedge={o.hedge} delay={o.hedgeMs} term={o.term} termall={o.termAll} termnr={o.termNR} termcanc={o.termCanc} kcancel={wins.any (·.kcancel)} sorter={o.sorter.isSome} ret={ret} fails={min nf 3} cancel={canc} late={min late 2} waits={min ticks 2}{triv}"
 
-def handleQ (f : List String) : String × String × String :=
-  match f with
+/-- one read: the trace of a single call. -/
+def handleCall (opts sets script trace : String) : String × String × String :=
+  match [opts, sets, script, trace] with
   | [opts, sets, script, trace] =>
     match parseOpts opts, parseSets sets with
     | some o, some ss =>
@@ -724,9 +725,31 @@ def handleQ (f : List String) : String × String × String :=
               accept (singleSys c (extraTermOf o) (abortTermOf o)) s0 (w0' :: wins.drop 1)
             | _ => "bad-sets"
         -- the search giving up is not a verdict: no diff, but visible in the tags (and the evidence)
-        if diff == "search-budget" then ("-", js, tags ++ " search=budget") else (diff, js, tags)
+        -- a window that could not be observed at quiescence (the process was starved for seconds): no verdict
+        -- at all for this case; it counts as trivial, so that a run full of them is vacuous, not OK
+        if diff == "not-quiescent" then ("-", "-", tags ++ " quiesce=timeout trivial")
+        else if diff == "search-budget" then ("-", js, tags ++ " search=budget") else (diff, js, tags)
     | _, _ => ("bad-input", "-", "-")
   | _ => ("bad-fields", "-", "-")
+
+/-- A case with a caller-owned zone preference list is two consecutive reads with the same ZoneSorter,
+separated by the token `N`; each read is checked on its own (same configuration, same release order),
+and after each read the list must be unchanged (token `Z!` otherwise). -/
+def handleQ (f : List String) : String × String × String :=
+  match f with
+  | [opts, sets, script, trace] =>
+    let parts := trace.splitOn " N "
+    let rs := parts.map (handleCall opts sets script)
+    let diff := match rs.find? (fun r => r.1 != "-") with | some r => r.1 | none => "-"
+    let mutated := (trace.splitOn " ").contains "Z!"
+    let js := dedupStrs ((rs.flatMap fun r => if r.2.1 == "-" then [] else r.2.1.splitOn ",") ++
+      (if mutated then ["zone-sorter-result-mutated"] else []))
+    let tags := (rs.head?.map (·.2.2)).getD "-" ++ s!" calls={parts.length}" ++
+      (if rs.any (fun r => (r.2.2.splitOn " ").contains "search=budget") && !((rs.head?.map (·.2.2)).getD "").endsWith "search=budget" then " search=budget" else "")
+    (diff, if js.isEmpty then "-" else ",".intercalate js, tags)
+  | _ => ("bad-fields", "-", "-")
+where
+  dedupStrs (l : List String) : List String := l.foldl (fun acc x => if acc.contains x then acc else acc ++ [x]) []
 
 def handle (cmd : String) (f : List String) : String × String × String :=
   if cmd == "C11.q" || cmd == "C11.m" || cmd == "C11.d" then handleQ f
